@@ -98,6 +98,14 @@ LineCls(l, L, Y, Z) ==
   ELSE (IF Z = 0 THEN "I" ELSE IF Z < 0 THEN "B"
         ELSE IF NearQ(l - L, Z, -1, 1) THEN "B"
         ELSE IF QLe(-1, 1, l - L, Z) THEN "F" ELSE "I")
+\* The exact reading -1 <= r <= Tol of the published definition. Used for the identity embedding only: there every
+\* length is a small integer, all float sums, the comparisons L < l / L > l and the quotients -1, 0, Tol are exact, so
+\* a borderline line IS feasible (a line whose natural width equals the line width has ratio 0 whatever its glue).
+\* Only the short line of negative total stretch stays undecided.
+LineClsX(l, L, Y, Z) ==
+  IF L = l THEN "F"
+  ELSE IF L < l THEN (IF Y = 0 THEN "I" ELSE IF Y < 0 THEN "B" ELSE IF QLe(l - L, Y, Tol, 1) THEN "F" ELSE "I")
+  ELSE (IF Z = 0 THEN "I" ELSE IF Z < 0 THEN "B" ELSE IF QLe(-1, 1, l - L, Z) THEN "F" ELSE "I")
 \* can the line be shrunk to fit (r >= -1), three-valued
 ShrCls(l, L, Y, Z) ==
   IF L < l THEN (IF Y < 0 THEN "B" ELSE "F")
@@ -137,7 +145,7 @@ LineRecS(it, l, b, L, Y, Z) ==
       n == RatioN(l, L, Y, Z)  d == RatioD(l, L, Y, Z)
       cls == LineCls(l, L, Y, Z)
       dem == cls # "I" /\ def /\ d > 0 /\ Abs(n) <= 100      \* demerits are only needed (and bounded) for lines that may be feasible
-  IN [L |-> L, Y |-> Y, Z |-> Z, def |-> def, n |-> n, d |-> d, cls |-> cls, shr |-> ShrCls(l, L, Y, Z),
+  IN [L |-> L, Y |-> Y, Z |-> Z, def |-> def, n |-> n, d |-> d, cls |-> cls, clsx |-> LineClsX(l, L, Y, Z), shr |-> ShrCls(l, L, Y, Z),
       st |-> StretchNeed(l, L, Y, Z),
       fit |-> IF dem THEN FitSet(n, d) ELSE {},
       dlo |-> IF dem THEN LineDem(it, b, BadLo(n, d)) ELSE 0,
@@ -157,6 +165,7 @@ JudgeRecs(s, recs) ==
   LET k == Len(s)
       ln(j) == recs[j]
       cls == Worst({ln(j).cls : j \in 1..k})
+      clsx == Worst({ln(j).clsx : j \in 1..k})
       shr == Worst({ln(j).shr : j \in 1..k})
       fitOf(j) == IF j = 0 THEN {1} ELSE ln(j).fit            \* the paragraph starts in class 1
       flagOf(j) == IF j = 0 THEN FALSE ELSE ln(j).flag
@@ -168,7 +177,7 @@ JudgeRecs(s, recs) ==
                           + DSum(j + 1, hi)
       RECURSIVE MaxSt(_)
       MaxSt(j) == IF j > k THEN <<0, 1>> ELSE QMaxInf(ln(j).st, MaxSt(j + 1))
-  IN [b |-> [j \in 1..k |-> s[j] - 1], cls |-> cls, shr |-> shr,
+  IN [b |-> [j \in 1..k |-> s[j] - 1], cls |-> cls, clsx |-> clsx, shr |-> shr,
       dlo |-> IF cls = "I" THEN 0 ELSE DSum(1, FALSE), dhi |-> IF cls = "I" THEN 0 ELSE DSum(1, TRUE),
       mx |-> MaxSt(1)]
 \* T: line table
@@ -234,15 +243,17 @@ Verdict(it, l, T) ==
       complete == NB = {} /\ SmallEnough(it)            \* then J holds every breaking (all of them class "I")
       J == IF NB # {} THEN NB ELSE IF complete THEN AllJudged(it, T) ELSE {}
       SF == {j \in J : j.cls = "F"}
+      SFX == {j \in J : j.clsx = "F"}
       SS == {j \in J : j.shr = "F"}
       fin == {j \in SS : j.mx[2] # 0}
       tstar == IF fin = {} THEN <<1, 0>> ELSE (CHOOSE j \in fin : \A i \in fin : QLe(j.mx[1], j.mx[2], i.mx[1], i.mx[2])).mx
   IN [items |-> it, width |-> l,
       legal |-> {i - 1 : i \in Legal(it)}, forced |-> {i - 1 : i \in Forced(it)},
-      ln |-> {[a |-> p[1] - 1, b |-> p[2] - 1, L |-> T[p].L, def |-> T[p].def, n |-> T[p].n, d |-> T[p].d, cls |-> T[p].cls,
+      ln |-> {[a |-> p[1] - 1, b |-> p[2] - 1, L |-> T[p].L, def |-> T[p].def, n |-> T[p].n, d |-> T[p].d, cls |-> T[p].cls, clsx |-> T[p].clsx,
                e |-> After(it, p[1]) > p[2]] : p \in DOMAIN T},      \* e: nothing between the two breakpoints
       brk |-> J,
       sf |-> SF # {}, mind |-> IF SF = {} THEN -1 ELSE MinOf({j.dhi : j \in SF}),
+      sfx |-> SFX # {}, mindx |-> IF SFX = {} THEN -1 ELSE MinOf({j.dhi : j \in SFX}),      \* exact reading (identity embedding)
       feat |-> Features(it, T, l),
       complete |-> complete,
       allinf |-> complete,
@@ -253,13 +264,15 @@ Verdict(it, l, T) ==
 VerdictP(it, l) ==
   LET P == PathsFrom(it, l, 0)
       J == {[j |-> JudgePath(p),
-             ls |-> [i \in 1..Len(p) |-> [L |-> p[i].r.L, def |-> p[i].r.def, n |-> p[i].r.n, d |-> p[i].r.d, cls |-> p[i].r.cls]]] : p \in P}
+             ls |-> [i \in 1..Len(p) |-> [L |-> p[i].r.L, def |-> p[i].r.def, n |-> p[i].r.n, d |-> p[i].r.d, cls |-> p[i].r.cls, clsx |-> p[i].r.clsx]]] : p \in P}
       SF == {x \in J : x.j.cls = "F"}
+      SFX == {x \in J : x.j.clsx = "F"}
   IN [items |-> it, width |-> l,
       legal |-> {i - 1 : i \in Legal(it)}, forced |-> {i - 1 : i \in Forced(it)},
       ln |-> {},
-      brk |-> {[b |-> x.j.b, cls |-> x.j.cls, shr |-> x.j.shr, dlo |-> x.j.dlo, dhi |-> x.j.dhi, mx |-> x.j.mx, ls |-> x.ls] : x \in J},
+      brk |-> {[b |-> x.j.b, cls |-> x.j.cls, clsx |-> x.j.clsx, shr |-> x.j.shr, dlo |-> x.j.dlo, dhi |-> x.j.dhi, mx |-> x.j.mx, ls |-> x.ls] : x \in J},
       sf |-> SF # {}, mind |-> IF SF = {} THEN -1 ELSE MinOf({x.j.dhi : x \in SF}),
+      sfx |-> SFX # {}, mindx |-> IF SFX = {} THEN -1 ELSE MinOf({x.j.dhi : x \in SFX}),
       feat |-> (IF FeatEmptyGlue(it) THEN {"emptyglue"} ELSE {}) \cup (IF FeatEmptyGlueDeact(it, l) THEN {"emptydeact"} ELSE {}),
       complete |-> FALSE, allinf |-> FALSE, sshr |-> FALSE, noshr |-> FALSE, tstar |-> <<1, 0>>]
 
@@ -293,7 +306,7 @@ BoxCls(w, L, Y, Z, e, h) ==
 \* ---- scenario space ----------------------------------------------------------------------------------
 Boxes == {Box(w) : w \in {1, 2, 3, 5}} \cup (IF Alpha = "ext" THEN {Box(0)} ELSE {})
 Glues == {Glue(1,1,1), Glue(1,0,0), Glue(2,1,0), Glue(1,-1,0), Glue(0,Inf,0)} \cup (IF Alpha = "ext" THEN {Glue(3,2,2)} ELSE {})
-Pens  == {Pen(0,0,0), Pen(1,50,1), Pen(0,500,1), Pen(0,Inf,0), Pen(0,0-Inf,0)} \cup (IF Alpha = "ext" THEN {Pen(0,-30,0), Pen(2,0,1)} ELSE {})
+Pens  == {Pen(0,0,0), Pen(1,50,1), Pen(0,500,1), Pen(0,Inf,0), Pen(0,0-Inf,0)} \cup (IF Alpha = "ext" THEN {Pen(0,-30,0), Pen(2,0,1), Pen(1,0,0), Pen(2,50,0)} ELSE {})
 Alphabet == Boxes \cup Glues \cup Pens
 \* structural constraints of the library's item builder (text.GlyphsToItems): the list starts with a box; glue of
 \* negative stretch only appears as the second half of the pair  Glue(.., +y, ..) Penalty Glue(.., -y, ..)
@@ -337,6 +350,8 @@ LinesSane == ph = 1 => \A p \in DOMAIN lt : LET r == lt[p] IN
                                     /\ r.fit # {} /\ r.shr = "F")
                  /\ (r.cls = "I" => ~r.def \/ QLt(r.n, r.d, -1, 1) \/ QLt(Tol, 1, r.n, r.d))
                  /\ (r.shr = "I" => r.cls = "I")
+                 /\ (r.cls = "F" => r.clsx = "F") /\ (r.cls = "I" <=> r.clsx = "I")       \* the exact reading only decides borderline lines
+                 /\ (r.clsx = "F" => r.def /\ QLe(-1, 1, r.n, r.d) /\ QLe(r.n, r.d, Tol, 1))
                  /\ (r.cls # "I" /\ r.def => LET m == Abs(r.n) IN
                         10 * m > r.d => /\ BadLo(r.n, r.d) * r.d * r.d * r.d <= 1000 * m * m * m
                                         /\ 1000 * m * m * m <= BadHi(r.n, r.d) * r.d * r.d * r.d
